@@ -36,6 +36,8 @@ def checkSeq (op : String) : Rd Verdict := do
     return specFail (path ++ "/spec/dims") s!"out={out.rows}x{out.colsN} expected={n}x{m}" feats
   if out.dense != want then
     return specFail (path ++ "/spec/den") s!"out={describe out}" feats
+  -- block products: the specification (operator and dimensions of the scalar expansion) is the whole check
+  if out.isBlock || fa ≥ 3 then return ok (feats ++ ["block"])
   -- model equality: the harness builds COO in triplet order and CSR/CSC by stable bucketing of the
   -- triplets; the library then converts to the format the kernel needs (matmult.cpp:215-352)
   let asCsr (fmt nr nc : Nat) (es : List (Entry Int)) : Csr Int :=
